@@ -135,7 +135,16 @@ def hasExt (ext : List (Bytes × Bytes)) (k : String) : Bool := ext.any (·.1 ==
 def mailLine (ext : List (Bytes × Bytes)) (frm : Bytes) (o : Option MailOptions) : Option Bytes :=
   if !validLine frm then none else
   let l0 := "MAIL FROM:<".b ++ frm ++ ">".b
-  let l1 := if hasExt ext "8BITMIME" then l0 ++ " BODY=8BITMIME".b else l0
+  let body : Bytes := match o with | some o => if o.body.isEmpty then "8BITMIME".b else o.body | none => "8BITMIME".b
+  let l1? : Option Bytes :=
+    if body == "7BIT".b || body == "8BITMIME".b then
+      some (if hasExt ext "8BITMIME" then l0 ++ " BODY=".b ++ body else l0)
+    else if body == "BINARYMIME".b then
+      (if hasExt ext "BINARYMIME" then some (l0 ++ " BODY=BINARYMIME".b) else none)
+    else none
+  match l1? with
+  | none => none
+  | some l1 =>
   match o with
   | none => some l1
   | some o =>
@@ -277,7 +286,8 @@ structure C where
   rcpts : List Bytes := []
   connClosed : Bool := false
   peer : Peer := {}
-  dw : Option DW := none
+  dws : List DW := []                   -- every DATA writer handed out so far (stale handles stay usable by the caller)
+  dot : Option Nat := none              -- textproto's `Writer.dot`: the dot-writer that is still open, if any
   out : Bytes := []                     -- octets written during the current call
   carry : Bytes := []                   -- octets flushed during `Write` calls, accounted to the next other call
   wbuf : Bytes := []                    -- textproto's bufio.Writer: stuffed message octets not yet flushed
@@ -300,9 +310,16 @@ def C.read (c : C) (expect : Nat) : C × RR :=
     | n + 1, p => match p.readLine with | some (_, p') => drop n p' | none => p
   ({ c with peer := drop used c.peer }, if c.connClosed then .io else r)
 
+/-- textproto's `Writer.closeDot`, run before every command line: a dot-writer left open is ended first -/
+def C.closeDot (c : C) : C × Bytes :=
+  match c.dot with
+  | none => (c, [])
+  | some i => ({ c with dot := none }, DotWriter.wclose ((c.dws.getD i {}).st))
+
 /-- `Client.cmd(expect, line)` -/
 def C.cmd (c : C) (expect : Nat) (line : Bytes) : C × RR :=
-  match c.send (line ++ crlf) with
+  let (c, pre) := c.closeDot
+  match c.send (pre ++ line ++ crlf) with
   | (c, false) => (c, .io)
   | (c, true) => c.read expect
 
@@ -345,7 +362,7 @@ inductive Call
   | ext (name : Bytes)
   | data | lmtpData
   | write (bs : Bytes)
-  | close
+  | close (k : Option Nat := none)      -- the k-th writer handed out so far (default: the latest)
   | auth (mech : Bytes) (ir : Option Bytes) (steps : List (Option (Option Bytes)))   -- none = ERR, some none = nil
 deriving Repr, Inhabited
 
@@ -456,15 +473,15 @@ def C.call (c0 : C) (call : Call) : C × CallRes :=
       | none => (c, { written := c.out, res := "false:-" })
   | .data =>
     match c.cmd 354 "DATA".b with
-    | (c, .ok _ _) => fin { c with dw := some {} } none
+    | (c, .ok _ _) => fin { c with dws := c.dws ++ [{}], dot := some c.dws.length } none
     | (c, r) => fin c (rrErr r)
   | .lmtpData =>
     if !c.lmtp then fin c (some .other)
     else match c.cmd 354 "DATA".b with
-      | (c, .ok _ _) => fin { c with dw := some { cb := true } } none
+      | (c, .ok _ _) => fin { c with dws := c.dws ++ [{ cb := true }], dot := some c.dws.length } none
       | (c, r) => fin c (rrErr r)
   | .write bs =>
-    match c.dw with
+    match c.dws.getLast? with
     | none => (c, { res := "nowriter" })
     | some d =>
       let (st, o) := DotWriter.write d.st bs
@@ -472,17 +489,20 @@ def C.call (c0 : C) (call : Call) : C × CallRes :=
       let total := c.wbuf ++ o
       let k := if total.isEmpty then 0 else ((total.length - 1) / 4096) * 4096
       let (c, _) := ({ c with wbuf := [] }).send (total.take k)
-      ({ c with dw := some { d with st := st }, wbuf := total.drop k, carry := c.out, out := [] }, { res := "nil" })
-  | .close =>
-    match c.dw with
+      ({ c with dws := c.dws.set (c.dws.length - 1) { d with st := st }, wbuf := total.drop k, carry := c.out, out := [] },
+       { res := "nil" })
+  | .close k? =>
+    let k := k?.getD (c.dws.length - 1)
+    match c.dws[k]? with
     | none => (c, { res := "nowriter" })
     | some d =>
       if d.closed then fin c (some .other)
       else
+        let c := if c.dot == some k then { c with dot := none } else c
         match c.send (DotWriter.wclose d.st) with
         | (c, false) => fin c (some .other)
         | (c, true) =>
-          let c := { c with dw := some { d with closed := true } }
+          let c := { c with dws := c.dws.set k { d with closed := true } }
           if c.lmtp then
             let (c, e, cbs) := lmtpReplies c.rcpts c d.cb none []
             (c, { written := c.out, res := showErr e, extra := [String.intercalate "+" cbs] })
